@@ -218,7 +218,34 @@ func (a *BigInt) M__imul__(other Object) (Object, error) {
 	return a.M__mul__(other)
 }
 
+// bigIntTrueDiv divides two ints giving the float nearest to the
+// exact quotient
+func bigIntTrueDiv(a, b *big.Int) (Object, error) {
+	if b.Sign() == 0 {
+		return nil, divisionByZero
+	}
+	if a.Sign() == 0 {
+		// 0.0 or -0.0
+		return Float(0) / Float(b.Sign()), nil
+	}
+	if a.IsInt64() && b.IsInt64() {
+		x, y := a.Int64(), b.Int64()
+		if x >= -(1<<float64precision) && x <= 1<<float64precision && y >= -(1<<float64precision) && y <= 1<<float64precision {
+			// both convert exactly so the division rounds once
+			return Float(x) / Float(y), nil
+		}
+	}
+	f, _ := new(big.Rat).SetFrac(a, b).Float64()
+	if math.IsInf(f, 0) {
+		return nil, ExceptionNewf(OverflowError, "integer division result too large for a float")
+	}
+	return Float(f), nil
+}
+
 func (a *BigInt) M__truediv__(other Object) (Object, error) {
+	if b, ok := ConvertToBigInt(other); ok {
+		return bigIntTrueDiv((*big.Int)(a), (*big.Int)(b))
+	}
 	b, err := MakeFloat(other)
 	if err != nil {
 		return nil, err
@@ -235,6 +262,9 @@ func (a *BigInt) M__truediv__(other Object) (Object, error) {
 }
 
 func (a *BigInt) M__rtruediv__(other Object) (Object, error) {
+	if b, ok := ConvertToBigInt(other); ok {
+		return bigIntTrueDiv((*big.Int)(b), (*big.Int)(a))
+	}
 	b, err := MakeFloat(other)
 	if err != nil {
 		return nil, err
